@@ -128,6 +128,7 @@ struct Region {
   bool live = true;
   int alignRoot = -1;                   // base address mod 2^k is roots[alignRoot] (k <= 6)
   int frame = -1;                       // owning frame depth for stack regions
+  bool traced = false;                  // read offsets are recorded (CFG.traceRegions)
 
   RegionData &w() {
     if (!d) d = std::make_shared<RegionData>();
